@@ -2,8 +2,11 @@ package yqlib
 
 // C16 — path, key and parent describe where a node actually is.
 
-var c16SeqProducers = []string{".a", ".a | sort", ".a | sort_by(.)", ".a | reverse", ".a | unique", ".a | .[1:]", ".a | map(.)", ".a | filter(. != 2)", "[.a[]]", ".a + [9]", ".a | (.[0] = 7)", ".a | flatten"}
-var c16SeqProducerNames = []string{"fresh", "sort", "sort_by", "reverse", "unique", "slice", "map", "filter", "collect", "concat", "assign-back", "flatten"}
+var c16SeqProducers = []string{".a", ".a | sort", ".a | sort_by(.)", ".a | reverse", ".a | unique", ".a | .[1:]", ".a | map(.)", ".a | filter(. != 2)", "[.a[]]", ".a + [9]", ".a | (.[0] = 7)", ".a | flatten",
+	// after a delete (also of an index that is not there, which deletes nothing) the survivors are where they say they are
+	".a | del(.[5])", ".a | del(.[0])", ".a | del(.[-1])", ".a | reverse | del(.[0])", ".a | sort | del(.[1])", ".a | del(.[0], .[7])", ".a | del(.[1]) | del(.[9])", "del(.a[6]) | .a"}
+var c16SeqProducerNames = []string{"fresh", "sort", "sort_by", "reverse", "unique", "slice", "map", "filter", "collect", "concat", "assign-back", "flatten",
+	"delete-absent", "delete-first", "delete-last", "reverse-then-delete", "sort-then-delete", "delete-two-one-absent", "delete-then-delete-absent", "delete-absent-through-the-document"}
 
 // c16Follow walks a path (as produced by the `path` operator: a !!seq of !!str / !!int scalars) from root.
 func c16Follow(root *CandidateNode, path *CandidateNode, skip int) *CandidateNode {
@@ -62,6 +65,9 @@ func VerifC16Seq() {
 	label := "producer=" + c16SeqProducerNames[p]
 	if p == 10 && n == 0 {
 		return // .[0] = 7 on an empty sequence creates an element; not the subject here
+	}
+	if c16SeqProducerNames[p] == "delete-last" && n == 0 {
+		return // .[-1] of an empty sequence is an error
 	}
 	res, err := vEval(vParse(c16SeqProducers[p]), doc)
 	if err != nil || res.Len() != 1 {
